@@ -4,6 +4,7 @@ import Ptk.Gen.C19
 import Ptk.Model.C19
 import Ptk.Model.C19Color
 import Ptk.Model.C19Ansi
+import Ptk.Model.C19Merge
 open Ptk Ptk.Py Ptk.Proto Ptk.C19
 
 def T : Tables := Gen.C19.tables
@@ -146,4 +147,58 @@ def handle (toks : List String) : String :=
       | _ => pure ("frags:" ++ encFrags frags)).getD "bad-op"
   | _ => "bad-op"
 
-def main : IO Unit := run handle
+/-- `k (N|ref)^k` -/
+def decParts : Nat → List String → Option (List (Option Nat) × List String)
+  | 0, rest => some ([], rest)
+  | k + 1, tok :: rest =>
+    if tok == "N" then do
+      let (ps, rest') ← decParts k rest
+      pure (none :: ps, rest')
+    else do
+      let r ← decNat tok
+      let (ps, rest') ← decParts k rest
+      pure (some r :: ps, rest')
+  | _, _ => none
+
+def encRules (l : List RawRule) : String :=
+  encList (fun r => encStr r.1 ++ " " ++ encStr r.2) l
+
+def encRes : Except Err Attrs → String
+  | .ok a => encAttrs a
+  | .error e => encErr e
+
+/-- session ops over shared style objects (the heap of rule lists is the driver state):
+    `new` | `sheet n rules…` | `sq <attrs> S ref str` | `sq <attrs> M k parts… str` |
+    `srules S ref` | `srules M k parts…`; every other line is a stateless op -/
+def stepLine (h : Heap) (toks : List String) : Heap × String :=
+  match toks with
+  | ["new"] => ({}, "ok")
+  | "sheet" :: n :: rest =>
+    match (do let (rs, r) ← decRules (← decNat n) rest; if r.isEmpty then pure rs else none) with
+    | some rs => let (h', r) := h.alloc rs; (h', s!"ok {r}")
+    | none => (h, "bad-op")
+  | "sq" :: rest =>
+    match decAttrs rest with
+    | some (d, ["S", r, s]) =>
+      match decNat r, decStr s with
+      | some r, some s => (h, encRes (sheetQuery T sp rsp h r s d))
+      | _, _ => (h, "bad-op")
+    | some (d, "M" :: k :: r1) =>
+      match (do let (ps, r2) ← decParts (← decNat k) r1
+                match r2 with
+                | [s] => pure (ps, ← decStr s)
+                | _ => none) with
+      | some (ps, s) => let (h', res) := mergedQuery T sp rsp h ps s d; (h', encRes res)
+      | none => (h, "bad-op")
+    | _ => (h, "bad-op")
+  | ["srules", "S", r] =>
+    match decNat r with
+    | some r => (h, encRules (h.get r))
+    | none => (h, "bad-op")
+  | "srules" :: "M" :: k :: r1 =>
+    match (do let (ps, r2) ← decParts (← decNat k) r1; if r2.isEmpty then pure ps else none) with
+    | some ps => let (h', r) := mergedStyleRules h ps; (h', encRules (h'.get r))
+    | none => (h, "bad-op")
+  | _ => (h, handle toks)
+
+def main : IO Unit := runS stepLine {}
